@@ -133,6 +133,16 @@ func vf_Observe(label string, v any) {
 }
 func vf_Known(id string, c bool)   {}
 func vf_SameObject(a, b any) bool  { return vfSame(a, b) }
+func vfParseIP4(p string) uint32 {
+	var a, b, c, d uint32
+	fmt.Sscanf(p, "%d.%d.%d.%d", &a, &b, &c, &d)
+	return a<<24 | b<<16 | c<<8 | d
+}
+func vf_IPRangeLo(s string) uint32 { return vfParseIP4(strings.Split(s, "-")[0]) }
+func vf_IPRangeHi(s string) uint32 {
+	parts := strings.Split(s, "-")
+	return vfParseIP4(parts[len(parts)-1])
+}
 func vf_SameString(a, b string) bool { return a == b }
 func vf_ExpectPanic()              { vfS.expectPanic = true }
 func vf_Stop()                     { panic(vfStop{}) }
